@@ -41,6 +41,14 @@ class StripParser(HTMLParser):
         if not self.script_depth and not self.style_depth:
             self.dat.append(f"&#{name};")
 
+    def parse_marked_section(self, i: int, report: int = 1) -> int:
+        try:
+            return super().parse_marked_section(i, report)
+        except AssertionError:
+            # Not a marked section the standard library knows. It's text.
+            self.handle_data(self.rawdata[i : i + 3])
+            return i + 3
+
     def get_data(self) -> str:
         """Return accumulated data."""
         return "".join(self.dat)
